@@ -17,6 +17,7 @@ func init() {
 			"D2 no accepted request can make storeFSM.Apply panic: the extension asserted by each apply function is the one the validator requires for the dispatching command type, and inside the closure of Apply no pointer returned by a may-return-nil lookup is dereferenced without a nil test; " +
 			"D3 snapshot fidelity: for every struct of the Data graph each field is read by marshal and restored by unmarshal (derived fields are frozen exceptions); " +
 			"D4 acknowledge after commit: raftState.apply / store.apply / serveExec / Client.retryUntilExec report success only after the preceding step returned nil, and the client waits for its cache to reach the command's index. " +
+			"D1 also: deep copies are unconditional (only nil/length tests of the copied field may guard them); D5 store.afterIndex compares the index and hands out dataChanged in one critical section of store.mu (lost wake-up of a long poll otherwise). " +
 			"NOT decided: raft itself (hashicorp/raft is outside the repository), convergence timing, leader failover.",
 		RuleText:    "obligation = (rule, type.field | function | site); type-graph walk with per-field clone obligations; nil-fact dataflow at dereference sites; field read/write agreement of marshal/unmarshal pairs",
 		Assumptions: commonAssumptions,
